@@ -110,13 +110,17 @@ def _tables(c, root, v, sd):
     so = c.get("sopt") or (None, None)
     cands = []
 
-    def add(s):
+    depth = {}
+
+    def add(s, d=0):
         if isinstance(s, str) and (s != "" or c["cls"] == "url") and s not in cands:
             cands.append(s)
+            depth[s] = d
             if so[0] == "case":        # the pipeline's case transform is applied to the text, and again to a stored path
                 for t in (s.lower(), s.upper()):
                     if t not in cands:
                         cands.append(t)
+                        depth[t] = d
     if isinstance(v, str):
         add(v)
         add(v.strip())
@@ -128,13 +132,16 @@ def _tables(c, root, v, sd):
         if c["cls"] == "file":
             e, a = os.path.expanduser(pth), os.path.abspath(pth)
             rows.append((cz(pth), os.path.isabs(pth), cz(e), cz(a), os.path.exists(pth), os.path.isdir(pth), os.path.isfile(pth)))
-            if sd and not os.path.isabs(pth):
+            if sd and not os.path.isabs(pth) and depth.get(pth, 0) <= 1:
+                # (a relative start directory gives a relative join: the chain of re-joins is cut after two levels, which is
+                #  more than any resolution of the value and of its stored form asks for)
                 j = os.path.join(sd, pth)
                 joins.append((cz(sd), cz(pth), cz(j)))
-                add(j)
-                add(os.path.expanduser(j))
-                add(os.path.abspath(os.path.expanduser(j)))
-                add(os.path.abspath(os.path.expanduser(j)).strip())
+                d1 = depth.get(pth, 0) + 1
+                add(j, d1)
+                add(os.path.expanduser(j), d1)
+                add(os.path.abspath(os.path.expanduser(j)), d1)
+                add(os.path.abspath(os.path.expanduser(j)).strip(), d1)
         else:
             from urllib.parse import urlparse
             try:
